@@ -241,6 +241,32 @@ def main(ck, tier, w, pid='C07'):
             ck.violation('%s under a %d byte file size limit: exit %d and %s-0-2.csv published with %d of 120 003 rows' % (cbx, lim, r.rc, prex, nrows),
                          {'rlimit_fsize': lim, 'observed': r.brief(), 'tags': []})
 
+    # ---- chains indexed around heights at which consensus rules or historical accidents sit (BIP30's repeated coinbases, soft
+    # forks, halvings): the UTXO bookkeeping has no rule that depends on a height
+    from lib import extremes as xt
+    hs = xt.SPECIAL_HEIGHTS if not quick else [h for k, h in enumerate(xt.SPECIAL_HEIGHTS) if (k + seed) % 2 == 1 or h in (91842, 91880)]
+
+    def sp(h):
+        coin = ['litecoin', 'bitcoin', 'dogecoin', 'testnet3', 'namecoin'][h % 5]
+        sb = xt.special_height_chain(h, coin, seed)
+        sd = datadir.simple_dir(w.sub('dd'), sb, coin, h0=h - 1)
+        sd.write()
+        out = {}
+        chain = [(h - 1 + k, b) for k, b in enumerate(sb)]
+        exp = ref.utxo_expected(chain, coin)
+        for cb, pre, want in (('unspentcsvdump', 'unspent', ref.unspent_rows(exp)), ('balances', 'balances', ref.balances_rows(exp))):
+            r = run.run_parser(sd.path, cb, dump=w.mk('out'), coin=coin, start=h - 1)
+            rows = set(r.files.get('%s-%d-%d.csv' % (pre, h - 1, h + 1), b'').decode('utf-8', 'replace').splitlines()[1:])
+            out[cb] = (r, rows, want)
+        return h, coin, out
+    for h, coin, out in chains.pmap(sp, hs, 8):
+        for cb, (r, rows, want) in out.items():
+            ck.evals()
+            ck.distinct(('special-height', h, coin, cb))
+            if (r.rc != 0 or rows != want) and (pid == 'C07') == (cb == 'unspentcsvdump'):
+                ck.violation('%s %s over a chain indexed at heights %d..%d: exit %d, unexpected rows %s, missing rows %s' % (
+                    coin, cb, h - 1, h + 1, r.rc, sorted(rows - want)[:3], sorted(want - rows)[:3]), {'coin': coin, 'heights': [h - 1, h, h + 1], 'observed': r.brief(), 'tags': []})
+
     # ---- counts beyond 16 bits: a transaction with more than 65 536 outputs / inputs (indices are 32-bit on the wire) -----------
     r0 = random.Random('%d-wide' % seed)
     A = [btc.p2pkh(r0.randbytes(20)) for _ in range(3)]
